@@ -22,7 +22,7 @@ Definition quiet_item (it : item) : bool :=
   end.
 
 Lemma quiet_sane it : quiet_item it = true -> sane_item it = true.
-Proof. destruct it as [[]| |]; simpl; auto; destruct h; simpl; auto; discriminate. Qed.
+Proof. destruct it as [[]| | | |]; simpl; auto; destruct h; simpl; auto; discriminate. Qed.
 
 (** ** The session invariant *)
 Record Inv (c : scfg) (s : session) : Prop := {
@@ -89,7 +89,7 @@ Lemma step_no_panic c s it : Inv c s -> step c s it <> Panic.
 Proof.
   intros [Hf _ _ _ _ _].
   unfold step, step_greet, step_ready, step_mail, step_mail_from, step_data.
-  destruct (st s) eqn:Es; destruct it as [l|p|]; try discriminate;
+  destruct (st s) eqn:Es; destruct it as [l|p| | |]; try discriminate;
     try (destruct l; try discriminate);
     repeat match goal with
            | |- context [match ?x with _ => _ end] => destruct x eqn:?; try discriminate
